@@ -46,6 +46,20 @@ def cut_iterator(seq):
     return it
 
 
+def _hook(what, fn, *a):
+    """run a contract hook; its own failure (e.g. the state it looks for is not there after a harmless edit
+    of the code) is a limit of the contract - undecided - never an exception of the code under test"""
+    from .ctx import ModelLimit, PathLimit
+
+    try:
+        return fn(*a)
+    except (Unsupported, ModelLimit, PathLimit):
+        raise
+    except Exception as ex:  # noqa: BLE001
+        cur().unsupported_here("contract hook %s failed: %r" % (what, ex))
+        raise Unsupported("contract hook %s failed: %r" % (what, ex)) from None
+
+
 def _snapshot(state):
     out = {}
     for k, v in state.items():
@@ -121,12 +135,12 @@ class _CutIter:
                 if not hasattr(ctx, "ghost"):
                     ctx.ghost = {}
                 ctx.ghost.setdefault("cut_index", {})[cut.name] = j
-                cut.pre_hook(self.frame.f_locals, j)
-                self.state = cut.select_state(self.frame.f_locals)
+                _hook('pre_hook', cut.pre_hook, self.frame.f_locals, j)
+                self.state = _hook('select_state', cut.select_state, self.frame.f_locals)
                 if self.state:
                     _havoc(ctx, self.state, cut, j, "pre", self._inv)
                 return seq.at(j)
-            self.state = cut.select_state(self.frame.f_locals)
+            self.state = _hook('select_state', cut.select_state, self.frame.f_locals)
             if not self.state and not getattr(cut, "stateless", False):
                 ctx.unsupported_here("loop cut %s: no loop-carried state found" % cut.name)
             snap = _snapshot(self.state)
@@ -145,16 +159,16 @@ class _CutIter:
                 ctx.ghost = {}
             ctx.ghost.setdefault("cut_index", {})[cut.name] = j
             if getattr(cut, "on_enter", None):
-                cut.on_enter(self.frame.f_locals, j)
+                _hook('on_enter', cut.on_enter, self.frame.f_locals, j)
             _havoc(ctx, self.state, cut, j, "pre", self._inv)
             return seq.at(j)
         if self.phase == 1:
             self.phase = 2
             if getattr(cut, "pre_hook", None):
-                self.state = cut.select_state(self.frame.f_locals)
+                self.state = _hook('select_state', cut.select_state, self.frame.f_locals)
             if getattr(cut, "step", None):
                 # transition obligations: relate the state after one arbitrary iteration to the state before
-                for nm, f in cut.step(self.frame.f_locals, self.j).items():
+                for nm, f in _hook('step', cut.step, self.frame.f_locals, self.j).items():
                     ctx.loop_obligations.append(("step", cut.name, 1, lambda i, nm=nm, f=f: {nm: f}))
             snap = _snapshot(self.state)
             n = cut.length_of(snap)
@@ -162,8 +176,8 @@ class _CutIter:
             if self.state:
                 ctx.loop_obligations.append(("preserve" + (str(self.entry) if self.entry else ""), cut.name, n, lambda i, snap=snap: self._inv(snap, j1, i)))
             if getattr(cut, "post_hook", None):
-                cut.post_hook(self.frame.f_locals)
-                self.state = cut.select_state(self.frame.f_locals)
+                _hook('post_hook', cut.post_hook, self.frame.f_locals)
+                self.state = _hook('select_state', cut.select_state, self.frame.f_locals)
             if self.state:
                 _havoc(ctx, self.state, cut, seq.K, "post", self._inv)
             raise StopIteration
